@@ -15,6 +15,9 @@ def sh(cmd, **kw):
 
 
 def main():
+    # evidence and replays of runs against a MODIFIED /repo must not overwrite the committed ones
+    os.environ.setdefault('VERIF_EVIDENCE_DIR', '/tmp/cuv-scratch-evidence')
+    os.environ.setdefault('VERIF_REPLAY_DIR', '/tmp/cuv-scratch-replays')
     claimed = [c['property_id'] for c in json.load(open(os.path.join(VERIF, 'MANIFEST.json')))['checks']]
     only = [a[7:].split(',') for a in sys.argv[1:] if a.startswith('--only=')]
     if only:
